@@ -32,8 +32,15 @@ EXTS = []
 TRANSLATOR_REQUIRED = False
 RULE = ("A: cells with lengths in [0.5, 50] nm and angle triples satisfying 1 - ca^2 - cb^2 - cg^2 + 2 ca cb cg > 0, drawn from "
         "{60, 90, 109.4712, 120} combinations, random triples in [35, 145], near-degenerate triples (relative volume down to "
-        "1e-2), per-frame variation (1-4 frames), each also as a randomly rotated vector description; non-trivial = not all "
-        "angles equal. B: histories (length <= 6) over {unitcell_vectors = array | zeros | None, unitcell_lengths = array | "
+        "1e-2), per-frame variation (1-4 frames), each also as a randomly rotated vector description; plus ~250 structured "
+        "cells in every tier aimed at special-case shortcuts: bit-identical lengths with angles differing per frame (one named "
+        "angle only / last frame only / cubic run followed by a hexagonal run of the same edge) and the reverse, first-frame(s)-"
+        "cubic runs, each built directly, by join / md.join of separately built segments, by later per-frame reassignment and by "
+        "[::-1] slicing; vector descriptions under all 48 signed axis permutations (24 proper rotations of the cube incl. 90/120/180 "
+        "degree turns about axes and body diagonals, and their mirror images) on orthorhombic and triclinic cells, zero-diagonal "
+        "descriptions, a different rotation per frame, all-but-last-frame-identical descriptions, tiny non-zero entries (1e-14..1e-5); "
+        "every per-frame getter is compared with the stored values of THAT frame and with the one-frame slice t[f]; "
+        "non-trivial = not all angles equal. B: histories (length <= 6) over {unitcell_vectors = array | zeros | None, unitcell_lengths = array | "
         "None, unitcell_angles = array | None, t[key], slice(copy=False), join, md.join, stack, atom_slice} on 2-3 "
         "trajectories with and without cell; non-trivial = at least one assignment and one structural op")
 TRUSTED = ["harness/impl/cell_impl.py and traj_impl.py (public-API drivers)",
@@ -337,6 +344,135 @@ def oracle_vectors(L, A):
     return np.array([a, b, [cx, cy, cz]])
 
 
+def signed_permutations():
+    """the 48 signed permutation matrices: 24 proper rotations of the cube (quarter/half turns about the axes, 120
+    degree turns about the body diagonals, half turns about the face diagonals) and their 24 mirror images"""
+    import itertools
+    out = []
+    for perm in itertools.permutations(range(3)):
+        for signs in itertools.product((1.0, -1.0), repeat=3):
+            m = np.zeros((3, 3))
+            for i, (p, sg) in enumerate(zip(perm, signs)):
+                m[i, p] = sg
+            out.append(m)
+    return out
+
+
+def small_rotation(rng, angle):
+    ax = np.array([rng.gauss(0, 1) for _ in range(3)])
+    ax /= np.linalg.norm(ax)
+    K = np.array([[0, -ax[2], ax[1]], [ax[2], 0, -ax[0]], [-ax[1], ax[0], 0]])
+    return np.eye(3) + math.sin(angle) * K + (1 - math.cos(angle)) * (K @ K)
+
+
+def describe(L, A, Rs):
+    """per-frame rotated description (rows R_f a, R_f b, R_f c), rounded to float32"""
+    rot = []
+    for f in range(len(L)):
+        V = oracle_vectors(L[f], A[f])
+        R = Rs[f] if isinstance(Rs, list) else Rs
+        rot.append([[f32(x) for x in (R @ V[i])] for i in range(3)])
+    return rot
+
+
+def structured_cells(rng):
+    """inputs aimed at special-case shortcuts (run in every tier): constancy across frames in one of lengths/angles
+    only, decisions taken on the first (or the first two) frames, all-90 shortcuts, trajectories assembled by join /
+    reassignment / slicing, and vector descriptions with zeros in every possible pattern (all 48 signed axis
+    permutations, zero diagonal, different rotation per frame, tiny non-zero entries)"""
+    P = signed_permutations()
+    cells = []
+
+    def add(L, A, Rs, kind, **kw):
+        L = [[f32(x) for x in r] for r in L]
+        A = [[f32(x) for x in r] for r in A]
+        cells.append(dict({"lengths": L, "angles": A, "rotated": describe(L, A, Rs), "kind": kind}, **kw))
+
+    def tri():
+        return gen_angles(rng, "random")
+
+    def lens():
+        return [rng.uniform(0.5, 50.0) for _ in range(3)]
+
+    vias = ["direct", "reassign", "reverse", "setattr_angles"]
+    # -- constant lengths (bit-identical), angles differ between frames; every construction route
+    for i in range(24):
+        nf = rng.choice([2, 3, 4])
+        l0 = lens() if i % 3 else [rng.uniform(2.0, 6.0)] * 3
+        L = [l0] * nf
+        if i % 4 == 0:      # cubic run followed by a hexagonal / sheared run of the same edge
+            A = [[90.0, 90.0, 90.0]] * (nf - 1) + [rng.choice([[90.0, 90.0, 120.0], [90.0, 90.0, 60.0], [60.0, 60.0, 60.0], tri()])]
+        elif i % 4 == 1:    # only ONE named angle varies
+            k = rng.randrange(3)
+            base = tri()
+            A = []
+            for f in range(nf):
+                a = list(base)
+                a[k] = base[k] + (f * rng.choice([-4.0, 3.0, 7.0]))
+                A.append(a if gram_of(*a) > 1e-3 and 5 < a[k] < 175 else base)
+        elif i % 4 == 2:    # all frames equal except the LAST one
+            base = tri()
+            A = [base] * (nf - 1) + [tri()]
+        else:
+            A = [tri() for _ in range(nf)]
+        add(L, A, rand_rotation(rng), "const-lengths", via=vias[i % 4])
+        if nf >= 2:
+            k = rng.randint(1, nf - 1)
+            add(L, A, rand_rotation(rng), "const-lengths/join", via="join", split=[k, nf - k])
+    # -- constant angles, lengths differ (incl. all-90 cells and first-frame-cubic runs)
+    for i in range(16):
+        nf = rng.choice([2, 3, 4])
+        A = [[90.0, 90.0, 90.0] if i % 2 else tri()] * nf
+        L = [lens() for _ in range(nf)]
+        if i % 4 == 0:
+            L = [L[0]] * (nf - 1) + [lens()]       # only the last frame differs
+        add(L, A, rand_rotation(rng), "const-angles", via=vias[i % 4])
+        add(L, A, rand_rotation(rng), "const-angles/join", via="join", split=[1, nf - 1])
+    # -- the first frame (or the first two) decides nothing: cubic first, triclinic later; and the reverse
+    for i in range(12):
+        nf = rng.choice([3, 4])
+        l0 = lens()
+        first = [[90.0, 90.0, 90.0]] * (1 + i % 2)
+        A = first + [tri() for _ in range(nf - len(first))]
+        L = [l0] * nf if i % 3 else [lens() for _ in range(nf)]
+        if i % 4 == 3:
+            A, L = A[::-1], L[::-1]
+        add(L, A, rand_rotation(rng), "first-frame-special", via=vias[i % 4])
+    # -- structured descriptions: all 48 signed axis permutations on orthorhombic AND triclinic cells
+    for j, M in enumerate(P):
+        ortho = [lens()]
+        add(ortho, [[90.0, 90.0, 90.0]], M, "axis-permutation/ortho")
+        add([lens()], [tri()], M, "axis-permutation/triclinic")
+    # zero diagonal explicitly (cyclic permutations and their signed variants), several frames, rotation differing per frame
+    zero_diag = [M for M in P if abs(M[0, 0]) + abs(M[1, 1]) + abs(M[2, 2]) == 0]
+    for j, M in enumerate(zero_diag):
+        nf = 1 + j % 3
+        add([lens() for _ in range(nf)], [[90.0, 90.0, 90.0]] * nf, M, "zero-diagonal")
+    for j in range(16):
+        nf = rng.choice([2, 3])
+        Rs = [P[rng.randrange(len(P))] for _ in range(nf)]
+        if j % 2 == 0:
+            Rs[0] = zero_diag[rng.randrange(len(zero_diag))]            # the first frame alone has a zero diagonal
+        add([lens() for _ in range(nf)], [tri() if j % 4 else [90.0, 90.0, 90.0] for _ in range(nf)], Rs, "per-frame-rotation")
+    # identical descriptions in all frames but the last
+    for j in range(6):
+        nf = 3
+        l0, a0 = lens(), tri()
+        R = rand_rotation(rng)
+        add([l0, l0, lens()], [a0, a0, tri()], [R, R, rand_rotation(rng)], "setter-last-frame-differs")
+    # tiny but non-zero entries: a signed permutation turned by 1e-9 .. 1e-5 rad, and explicit 1e-12 on a zero diagonal
+    for j in range(16):
+        M = P[rng.randrange(len(P))] @ small_rotation(rng, 10.0 ** rng.uniform(-9, -5))
+        add([lens()], [[90.0, 90.0, 90.0] if j % 2 else tri()], M, "tiny-entries")
+    for j, M in enumerate(zero_diag[:6]):
+        L, A = [[f32(x) for x in lens()]], [[90.0, 90.0, 90.0]]
+        rot = describe(L, A, M)
+        for k in range(3):
+            rot[0][k][k] = f32(rng.choice([1e-12, -1e-12, 1e-9, 3e-14]))
+        cells.append({"lengths": L, "angles": A, "rotated": rot, "kind": "tiny-entries"})
+    return cells
+
+
 def build_cells(ctx):
     rng = ctx.rng
     quick = ctx.tier == "quick"
@@ -359,6 +495,7 @@ def build_cells(ctx):
             V = oracle_vectors(L[f], A[f])
             rot.append([[f32(x) for x in (R @ V[i])] for i in range(3)])
         cells.append({"lengths": L, "angles": A, "rotated": rot, "kind": kind})
+    cells = structured_cells(rng) + cells
     # fixed probes: cube, the three named angles all different, rhombic dodecahedron, truncated octahedron
     for L, A in [([2.0, 2.0, 2.0], [90.0, 90.0, 90.0]), ([3.0, 4.0, 5.0], [70.0, 80.0, 100.0]),
                  ([5.0, 5.0, 5.0], [60.0, 60.0, 90.0]), ([4.0, 4.0, 4.0], [f32(109.4712206)] * 3),
@@ -381,8 +518,17 @@ def check_cell(c, r):
         return [("a trajectory with lengths and angles reports no vectors/volumes", "")]
     if r.get("back_lengths") is None or r.get("back_angles") is None or r.get("back_volumes") is None:
         return [("assigning non-zero unitcell_vectors left the trajectory without a cell", str(c["rotated"][0]))]
+    nf = len(c["lengths"])
+    if len(r["vectors"]) != nf or len(r["volumes"]) != nf or len(r["back_lengths"]) != nf:
+        return [("a per-frame cell quantity has not one entry per frame", "%d frames" % nf)]
+    if r.get("stored_lengths") != c["lengths"] or r.get("stored_angles") != c["angles"]:
+        bad.append(("stored unitcell_lengths/unitcell_angles are not the assigned per-frame values", c.get("via", "direct")))
     for f, (L, A) in enumerate(zip(c["lengths"], c["angles"])):
         V = np.array(r["vectors"][f])
+        # the whole-trajectory getters agree with the getters of the one-frame slice t[f]
+        if np.abs(V - np.array(r["vectors_by_frame"][f])).max() > 1e-6 * max(L) or \
+                abs(r["volumes"][f] - r["volumes_by_frame"][f]) > 1e-6 * L[0] * L[1] * L[2]:
+            bad.append(("unitcell_vectors/volumes of the trajectory differ from those of its one-frame slice", "frame %d" % f))
         G = V @ V.T
         # the reported vectors have the stored lengths and, separately, each stored angle
         for i in range(3):
@@ -417,6 +563,13 @@ def check_cell(c, r):
                 bad.append(("angle %s read back from a rotated description" % nm, "frame %d: %r vs %r" % (f, ba[k], A[k])))
         if abs(bv - float(np.linalg.det(Vo))) > 2e-4 * scale:
             bad.append(("volume read back from a rotated description", "frame %d: %r vs %r" % (f, bv, float(np.linalg.det(Vo)))))
+        Bk = np.array(r["back_vectors"][f])
+        Gb = Bk @ Bk.T
+        for nm, i, j in NAMES + (("a", 0, 0), ("b", 1, 1), ("c", 2, 2)):
+            want = L[i] * L[j] * (1.0 if i == j else math.cos(math.radians(A["alpha beta gamma".split().index(nm)])))
+            if abs(Gb[i, j] - want) > 1e-4 * L[i] * L[j] + 3e-6 * (L[i] + L[j]):
+                bad.append(("vectors reported after assigning a rotated description: %s is wrong" % nm,
+                            "frame %d: %r vs %r" % (f, Gb[i, j], want)))
     if f == 0 or True:
         L, A = c["lengths"][0], c["angles"][0]
         uv = r.get("utils_vectors")
@@ -448,9 +601,10 @@ def run_cells(ctx, cells, stage="correspond"):
     B = 2500
     for i in range(0, len(cells), B):
         chunk = cells[i:i + B]
-        res = ctx.run_impl("cell_impl.py", {"cells": [{k: c[k] for k in ("lengths", "angles", "rotated")} for c in chunk]})["cells"]
+        keys = ("lengths", "angles", "rotated", "via", "split")
+        res = ctx.run_impl("cell_impl.py", {"cells": [{k: c[k] for k in keys if k in c} for c in chunk]})["cells"]
         for c, r in zip(chunk, res):
-            case = {"cell": {k: c[k] for k in ("lengths", "angles", "rotated")}}
+            case = {"cell": {k: c[k] for k in keys if k in c}}
             distinct = len({round(x, 3) for x in c["angles"][0]}) > 1
             ctx.count(case, nontrivial=distinct, bucket="cell/" + c.get("kind", "replay"))
             for cls, detail in check_cell(c, r):
